@@ -53,6 +53,26 @@ def matrix(thorough):
                 out.append(("shadow-then-%s/%s/%s" % (tag, op, ctx), wrap(ctx, [], ["def %sx := 1" % ("" if fin else "fin "), "def %sx := 5" % f, "x %s 2" % op]), exp))
             out.append(("undefined/%s/%s" % (op, ctx), wrap(ctx, [], ["zq %s 2" % op]), "reject"))
             out.append(("undefined-field/%s/%s" % (op, ctx), wrap(ctx, klass(False, False), ["def o := K(1)", "o.zq %s 2" % op]), "reject"))
+    # the value of the (re-)definition in every expression form: the mutability of the NEW definition decides
+    pre = ["def rg(v: Int) -> Int raise [Exception] => if v > 10 then raise Exception(\"e\") else v", "def idq(v: Int) -> Int => v", "def cnd2 := True"]
+    # (conditional values are annotated: without the annotation the checker cannot infer the type in time for `+=`, which is
+    # the recorded C05 finding inference-over-rejection and says nothing about mutability)
+    forms = {
+        "handle": lambda f: ["def %sx := rg(5) handle" % f, "    err: Exception => 0"],
+        "if-expression": lambda f: ["def %sx: Int := if cnd2 then 1 else 2" % f],
+        "match": lambda f: ["def %sx: Int := match 3" % f, "    1 => 5", "    _ => 6"],
+        "call": lambda f: ["def %sx := idq(4)" % f],
+        "block-if": lambda f: ["def %sx: Int := if cnd2 then" % f, "    1", "else", "    2"],
+        "annotated-handle": lambda f: ["def %sx: Int := rg(5) handle" % f, "    err: Exception => 0"],
+    }
+    for ctx in ("top", "function", "if", "for", "method"):
+        for op in (":=", "+="):
+            for fin in (False, True):
+                f, exp, tag = ("fin " if fin else ""), ("reject" if fin else "accept"), ("fin" if fin else "mut")
+                for name, form in forms.items():
+                    out.append(("value-%s/%s/%s/%s" % (name, tag, op, ctx), wrap(ctx, pre, form(f) + ["x %s 2" % op]), exp))
+                    out.append(("shadow-value-%s-then-%s/%s/%s" % (name, tag, op, ctx),
+                                wrap(ctx, pre, ["def %sx := 1" % ("" if fin else "fin ")] + form(f) + ["x %s 2" % op]), exp))
     # parameters and self
     for op in OPS:
         for fin in (False, True):
